@@ -98,6 +98,7 @@ def run(ctx):
     for i in range(4):
         jobs.append({"terms": main_terms, "part": "combine", "nrandom": 7 if thorough else 3, "shard": i, "nshards": 4})
     jobs.append({"terms": main_terms, "part": "final", "nrandom": 20 if thorough else 4, "shard": 0})
+    jobs.append({"terms": main_terms, "part": "round", "shard": 0})
 
     def one(j):
         return ctx.run_driver("c13", j, tag="%s-%d-%s" % (j["part"], j["shard"], os.path.basename(os.path.dirname(j["terms"]))), timeout=3000)
